@@ -25,8 +25,8 @@ TERM_TARGETS = [
     'kernel.term.Term.get_type.rec', 'kernel.term.Term.get_type',
     'kernel.term.Term.checked_get_type.rec', 'kernel.term.Term.checked_get_type',
     'kernel.term.Term.strip_comb', 'kernel.term.Term.args', 'kernel.term.Term.head',
-    'kernel.term.Term.subst_type',
-    'kernel.type.Type.__eq__', 'kernel.type.Type.subst',
+    'kernel.term.Term.subst_type', 'kernel.term.Term.subst.rec', 'kernel.term.Term.subst',
+    'kernel.type.Type.__eq__', 'kernel.type.Type.subst', 'kernel.type.Type.match_incr',
     'lemma:lift_closed', 'lemma:rev_rargs', 'lemma:len_args', 'lemma:args_small',
 ]
 
@@ -53,6 +53,7 @@ C05_TARGETS = [
 PLANS = {
     'C01': dict(
         specs=KERNEL_SPECS, contracts=KERNEL_CONTRACTS, targets=C01_TARGETS, level='proof',
+        bounded=['bounded.c01_substitution.run'],
         assumptions=COMMON_ASSUMPTIONS + [
             "A1: the rule schemas in /verif/spec/thm.py are the sound rules of HOL (literature; not "
             "machine-checked): what is proved is that each implemented rule refines its schema, side "
